@@ -364,12 +364,13 @@ class Packed:
 
 
 class Idx:
-    """symbolic loop index (for i in range(nelem)) with affine arithmetic a*i + b"""
-    def __init__(self, name, a=1, b=0):
-        self.name, self.a, self.b = name, a, b
+    """symbolic loop index (for i in range(nelem)) with affine arithmetic a*i + b (+ sym: a
+    symbolic offset such as q*nelem, kept as text: a variable-major position)"""
+    def __init__(self, name, a=1, b=0, sym=""):
+        self.name, self.a, self.b, self.sym = name, a, b, sym
 
     def __mul__(self, o):
-        if isinstance(o, int):
+        if isinstance(o, int) and not self.sym:
             return Idx(self.name, self.a * o, self.b * o)
         raise AnalysisError("non-affine index arithmetic")
 
@@ -377,18 +378,20 @@ class Idx:
 
     def __add__(self, o):
         if isinstance(o, int):
-            return Idx(self.name, self.a, self.b + o)
+            return Idx(self.name, self.a, self.b + o, self.sym)
+        if isinstance(o, Sym):
+            return Idx(self.name, self.a, self.b, (self.sym + " + " if self.sym else "") + o.name)
         raise AnalysisError("non-affine index arithmetic")
 
     __radd__ = __add__
 
     def __sub__(self, o):
         if isinstance(o, int):
-            return Idx(self.name, self.a, self.b - o)
+            return Idx(self.name, self.a, self.b - o, self.sym)
         raise AnalysisError("non-affine index arithmetic")
 
     def __repr__(self):
-        return "%d*%s+%d" % (self.a, self.name, self.b)
+        return "%d*%s+%d%s" % (self.a, self.name, self.b, (" + " + self.sym) if self.sym else "")
 
 
 class IdxClamp:
@@ -1225,6 +1228,14 @@ class AffInterp:
             return Op(d.poly, 0)
         if base in ("eye", "identity"):
             return Op({0: Fraction(1)}, 0)
+        if base in ("round", "around") and args:
+            v = args[0]
+            nd = args[1] if len(args) > 1 else kwargs.get("decimals", 0)
+            if isinstance(v, S) and v.is_const():
+                v = v.const()
+            if isinstance(v, (int, Fraction)) and isinstance(nd, int):
+                return Fraction(round(Fraction(v), nd))       # exact decimal rounding of a literal-derived constant (half to even, as numpy)
+            raise AnalysisError("%s:%d np.round of a non-constant" % (func.qualname, ln))
         if base == "solve":
             mat, rhs = args
             if not (isinstance(mat, Op) and isinstance(rhs, Packed)):
